@@ -114,10 +114,12 @@ def walk_two_vertices(v0, v1, layers):
                                                 [v0[axis - 1], v1[axis - 1]],
                                                 kind="linear")
     for value in range(v0[axis], v1[axis], delta):
+        # Image.getpixel truncates float coordinates: keep the pixel, so that distinct positions are distinct pixels
+        other = int(interpolation(value))
         if axis == 0:
-            position = (value, interpolation(value))
+            position = (value, other)
         else:
-            position = (interpolation(value), value)
+            position = (other, value)
 
         vertices_to_return.update(get_layer_elements(position, layers))
     return vertices_to_return
